@@ -23,6 +23,7 @@ func c10(r *core.Run) {
 	c10Sanitize(r, p)
 	c10Parser(r, p)
 	ruleNetmaskBounds(r, p)
+	ruleFamilyDecidedOnce(r, p)
 	c10Windows(r, p)
 }
 
